@@ -308,7 +308,7 @@ func c10Check(spec gen.Spec, pieces []c10Piece, pre []bpv7.Bundle, st *c10Stats,
 			if err != nil {
 				key, desc = "C10/store-load-failed", err.Error()
 			} else if ls, _ := gen.Ser(&lb); !bytes.Equal(ls, orig) {
-				key, desc = "C10/store-load-differs", "loaded bundle differs from original for " + shape
+				key, desc = "C10/store-load-differs", "loaded bundle differs from original for "+shape
 			}
 		}
 	}()
@@ -508,7 +508,7 @@ func runC10(r *ev.Run, thorough bool) int {
 	return r.Finish(map[string]interface{}{
 		"evaluations":         st.reasm,
 		"distinct_nontrivial": st.covered + st.uncovered,
-		"rule": fmt.Sprintf("%d shapes x payload %v; pool = up to %d distinct fragments from three fragmentations with different limits and second-level fragmentation; ALL non-empty subsets of each pool (optionally one duplicate for subsets <=5), all orders for <=4 elements, ascending/descending/rotated above; each (subset, order) is a distinct case, non-trivial = reassembly and IsBundleReassemblable were run and compared with coverage computed from payload content; store path on the first two orders", len(shapes), sizes, maxPool),
+		"rule":                fmt.Sprintf("%d shapes x payload %v; pool = up to %d distinct fragments from three fragmentations with different limits and second-level fragmentation; ALL non-empty subsets of each pool (optionally one duplicate for subsets <=5), all orders for <=4 elements, ascending/descending/rotated above; each (subset, order) is a distinct case, non-trivial = reassembly and IsBundleReassemblable were run and compared with coverage computed from payload content; store path on the first two orders", len(shapes), sizes, maxPool),
 	}, []string{"true position of a fragment is derived from its payload content (injective byte pattern), not from its header", "storage.Store reused across cases with distinct bundle IDs"})
 }
 
